@@ -321,6 +321,9 @@ def run(prop, tier):
                            "push/pop/set (values 0, 1, 2^32, 2^32+1; defined, second and undefined type) on two threads with pause/cool/warm/resume: verdict and rows type 100")
         ctx.cov["distinct_nontrivial"] = ctx.cov["states"]
         ctx.assumptions += ["documented refusal reasons from doc/user/runtime/mark.md and the API comments", "walk depth 4/6, stack depth <= 3"]
+        from checks import soak
+        if not ctx.out_of_time(0.9):
+            soak.run_for(ctx, build, scratch, "C17", tier)
         return ctx.finish()
     finally:
         scratch.cleanup()
